@@ -50,7 +50,7 @@ def check_execution(cfg, choices, obs, rec):
     ev = obs['events']
     names = [n for n, _ in script]
     if 'HORIZON' in names:
-        return viol(rec, cfg, choices, 'C19:unbounded resending', 'bounded', names)
+        return viol(rec, cfg, choices, 'C19:request sent more than n+1 times', 'bounded', names)
     A = len(script)
     # shape: per attempt, T begins then T completions, tracers in configuration order
     want = []
